@@ -39,7 +39,9 @@ from .world import SimIOError, SimRows, children, needs_processing, walk, walk_l
 def live_leaf_ids(rel):
     out = set()
     for n in walk_live(rel):
-        if isinstance(n, LeafRelation) and isinstance(n.payload, SimRows):
+        # a marker may legitimately have been given a leaf's own (lazy) payload, e.g. when
+        # Processor simplifies a materialization down to a leaf
+        if isinstance(n.payload, SimRows):
             out.add(n.payload.lid)
     return out
 
